@@ -49,7 +49,8 @@ def check_doc(args):
             if cnt != len(fa):
                 bad.append(('C03-count', {'query': q, 'root_position': ent['root'], 'count': cnt, 'len': len(fa)}))
                 break
-            if IDENT.match(q) and q not in ('expr', 'parent', 'char_to_line'):
+            # attribute access searches only for names that are not attributes of the node class itself (text, name, args ...)
+            if IDENT.match(q) and q not in ('expr', 'parent', 'char_to_line') and not hasattr(type(root), q):
                 a = getattr(root, q)
                 if (a is None) != (f is None) or (a is not None and a.position != f.position):
                     bad.append(('C03-attr', {'query': q, 'root_position': ent['root']}))
